@@ -10,18 +10,22 @@
 (*            constant 0 assigned before the loop)                         *)
 (*   failedAt iteration whose inner solve failed (-1 = none)               *)
 (*   byCrit   the loop was left through the stopping test                  *)
+(*   postFailed  the step after the loop (Bregman: recovery of the pressure *)
+(*            by one more linear solve) failed; the flux iterate is kept    *)
 (* rule selects the status / initial-distance logic:                       *)
 (*   "asbuilt" (before the fixes): converged == iter < N - 1,              *)
 (*                                 distance initialised to 0               *)
 (*   "fixed"  (current tree)     : converged == loop left through the test,*)
 (*                                 distance initialised from the Darcy flux*)
+(*   "postignored" (a plausible regression): as "fixed", but a failure of  *)
+(*                                 the step after the loop leaves the status*)
 (* The transition functions are shared by the model-checking spec below    *)
 (* and by Trace_SolverLoop, which steps them along recorded solver runs.   *)
 EXTENDS Integers, TLC
 
 LoopInit(rule) == [pc |-> "loop", iter |-> 0, cur |-> 0,
                    distOf |-> (IF rule = "asbuilt" THEN -1 ELSE 0),
-                   failedAt |-> -1, byCrit |-> FALSE, converged |-> FALSE]
+                   failedAt |-> -1, byCrit |-> FALSE, converged |-> FALSE, postFailed |-> FALSE]
 Status(rule, N, exitIter, byCriteria) == IF rule = "asbuilt" THEN exitIter < N - 1 ELSE byCriteria
 IterEnabled(s, N) == s.pc = "loop" /\ s.iter < N
 \* iteration s.iter completes; met = the stopping criteria hold for the new iterate
@@ -36,8 +40,12 @@ LoopIterOk(s, N, rule, met) ==
 LoopIterFail(s, N, rule) ==
   [s EXCEPT !.failedAt = s.iter, !.pc = "done", !.converged = Status(rule, N, s.iter, FALSE)]
 
-ConvergedOnlyIfCriteriaS(s) == s.pc = "done" /\ s.converged => s.byCrit /\ s.failedAt = -1
-FaultFlaggedS(s) == s.pc = "done" /\ s.failedAt # -1 => ~s.converged
+\* the step after the loop (only solvers that have one) raises: the iterate is kept, the run is not converged
+PostEnabled(s) == s.pc = "done" /\ s.failedAt = -1 /\ ~s.postFailed
+LoopPostFail(s, rule) == [s EXCEPT !.postFailed = TRUE, !.converged = IF rule = "postignored" THEN s.converged ELSE FALSE]
+
+ConvergedOnlyIfCriteriaS(s) == s.pc = "done" /\ s.converged => s.byCrit /\ s.failedAt = -1 /\ ~s.postFailed
+FaultFlaggedS(s) == s.pc = "done" /\ (s.failedAt # -1 \/ s.postFailed) => ~s.converged
 DistanceOfReturnedS(s) == s.pc = "done" => s.distOf = s.cur
 ReturnedIsLastValidS(s) == s.pc = "done" /\ s.failedAt # -1 => s.cur = s.failedAt
 
@@ -45,14 +53,15 @@ ReturnedIsLastValidS(s) == s.pc = "done" /\ s.failedAt # -1 => s.cur = s.failedA
 CONSTANTS NumIter, Rule
 VARIABLE s
 Init == s = LoopInit(Rule)
-Next == /\ IterEnabled(s, NumIter)
-        /\ \/ \E met \in BOOLEAN : s' = LoopIterOk(s, NumIter, Rule, met)
-           \/ s' = LoopIterFail(s, NumIter, Rule)
+Next == \/ /\ IterEnabled(s, NumIter)
+           /\ \/ \E met \in BOOLEAN : s' = LoopIterOk(s, NumIter, Rule, met)
+              \/ s' = LoopIterFail(s, NumIter, Rule)
+        \/ /\ PostEnabled(s) /\ s' = LoopPostFail(s, Rule)
 Spec == Init /\ [][Next]_s
 ConvergedOnlyIfCriteria == ConvergedOnlyIfCriteriaS(s)
 FaultFlagged == FaultFlaggedS(s)
 DistanceOfReturned == DistanceOfReturnedS(s)
 ReturnedIsLastValid == ReturnedIsLastValidS(s)
 \* scenario emission: every terminal state = (number of completed iterations, failing iteration or -1)
-Emit == s.pc # "done" \/ PrintT(<<"SCN", s.cur, s.failedAt, s.byCrit>>)
+Emit == s.pc # "done" \/ PrintT(<<"SCN", s.cur, s.failedAt, s.byCrit, s.postFailed>>)
 =============================================================================
